@@ -7,6 +7,7 @@ props = [json.loads(l) for l in open('/verif/properties.jsonl')]
 plist = '\n'.join(f"  {p['id']}: {p['title']} — {p['statement']}" for p in props)
 AREAS = {
  '5': {},
+ '13': {k: ('any file of the package (bluebell/*.py, bluebell/akn.peg with bluebell/akn.py, bluebell/akn_text.xsl)', 'whatever code the property %s depends on; the change must break property %s specifically (others may break too)' % (k, k)) for k in ['C02', 'C03', 'C15', 'C19']},
  '12': {k: ('any file of the package (bluebell/*.py, bluebell/akn.peg with bluebell/akn.py, bluebell/akn_text.xsl)', 'whatever code the property %s depends on; the change must break property %s specifically (others may break too)' % (k, k)) for k in ['C01', 'C04', 'C07', 'C18']},
  '11': {'xslF': ('bluebell/akn_text.xsl', 'the templates for attachments, the preface / preamble / conclusions containers, the BODY marker, judgment and debate containers, long titles and crossheadings'),
         'typesG': ('bluebell/types.py', 'BlockAttrs / BlockAttr (attribute pairs and classes), table and cell classes, P, Line, Longtitle, Crossheading, the preface / preamble / conclusions containers'),
